@@ -178,6 +178,14 @@ def q(x):
 
 
 def random_op(rng, w):
+    op, a = _random_op(rng, w)
+    # the helpers write single-phase outlets: a slot that an earlier mix turned into a multi-phase stream is no valid outlet
+    outs = [a.get(k) for k in ('top', 'bot', 'ret', 'perm') if a.get(k)] + list(a.get('outs', [])) + list(a.get('var', []))
+    a['plain'] = all(not isinstance(w.s[n], tmo.MultiStream) for n in outs)
+    return op, a
+
+
+def _random_op(rng, w):
     op = rng.choice(['mix_and_split', 'mix_and_split', 'phase_split', 'moisture', 'moisture', 'partition', 'partition', 'partition', 'sep_vle', 'sep_lle',
                      'chemical_splits', 'material_balance'])
     P = PLAIN
